@@ -563,7 +563,12 @@ class GraphWorld(BaseWorld):
     def gen_remove_node(self, rng, gi):
         s = self.slots[gi]
         if s.stale and rng.random() < 0.25:
-            return {'op': 'remove_node_again', 'g': gi, 'n': rng.choice(sorted(s.stale))}
+            h = rng.choice(sorted(s.stale))
+            if rng.random() < 0.5:
+                # ... or the removed node is put back (add, remove, add)
+                return {'op': 'readd_removed_node', 'g': gi, 'n': h, 'h': self.new_nh(),
+                        'node_id': rng.choice([None, None, 'old'])}
+            return {'op': 'remove_node_again', 'g': gi, 'n': h}
         if not s.ref.order:
             return None
         r = rng.random()
@@ -960,9 +965,38 @@ class GraphWorld(BaseWorld):
         if o.raised:
             self.fail('C09.must_not_raise', f'{where} raised {o.exc!r}')
         if s.kind == 'hand' and ref.nodes[h].asset is None:
-            s.stale[h] = (node, ref.nodes[h].id, ref.nodes[h].full_name)
+            s.stale[h] = (node, ref.nodes[h].id, ref.nodes[h].full_name, ref.nodes[h])
         ref.remove_node(h)
         del s.nmap[h]
+        self._touch(s)
+        self._invalidate_surfaces(s)
+        self.check_all(where, only=op['g'])
+        return 'ok'
+
+    def do_readd_removed_node(self, op):
+        """add_node with a node that was removed from this graph before: it comes back as a
+        node without links and without attackers (whatever it was connected to or compromised
+        by when it was removed is history), under a free id."""
+        s = self.slot(op['g'])
+        if op['n'] not in s.stale or op['h'] in s.nmap or op['h'] in s.ref.nodes:
+            raise Unresolvable()
+        node, old_id, full, old_rn = s.stale[op['n']]
+        nid = old_id if op.get('node_id') == 'old' and old_id not in s.ref.ids() else None
+        where = f'add_node(<node {old_id} that was removed before>, node_id={nid})'
+        o = call(s.g.add_node, node) if nid is None else call(s.g.add_node, node, node_id=nid)
+        self.count('fault:removed_node_added_again')
+        if o.raised:
+            self.fail('C09.must_not_raise', f'{where} raised {o.exc!r}')
+        if not isinstance(node.id, int) or node.id in s.ref.ids():
+            self.fail('C09.index', f'{where}: node got id {node.id!r}, ids in use {sorted(s.ref.ids())}')
+        rn = RNode(op['h'], id=node.id, name=old_rn.name, type=old_rn.type, asset=None,
+                   ttc=old_rn.ttc, defense_status=old_rn.defense_status,
+                   existence_status=old_rn.existence_status, tags=old_rn.tags,
+                   mitre=old_rn.mitre, extras=old_rn.extras)
+        rn.is_viable, rn.is_necessary = old_rn.is_viable, old_rn.is_necessary
+        s.ref.add_node(rn)
+        s.nmap[op['h']] = node
+        del s.stale[op['n']]
         self._touch(s)
         self._invalidate_surfaces(s)
         self.check_all(where, only=op['g'])
@@ -975,7 +1009,7 @@ class GraphWorld(BaseWorld):
         s = self.slot(op['g'])
         if op['n'] not in s.stale:
             raise Unresolvable()
-        node, nid, full = s.stale[op['n']]
+        node, nid, full = s.stale[op['n']][:3]
         twin = [h for h in s.ref.order if s.ref.nodes[h].id == nid]
         if twin and s.ref.nodes[twin[0]].full_name == full:
             raise Unresolvable()        # value-equal to a live node: unspecified
